@@ -161,6 +161,16 @@ def words_scope(res, pid, rng, tier):
     for i, (o, want) in enumerate(zip(outs, ["username bob password MyReservedPw\n", "snmp-server community MyReservedPw ro\n", "enable password level 12 trap\n"])):
         if o != want:
             fails.append({"kind": "a secret value that is a reserved word was replaced", "line": want, "output": o})
+    # ... also after a $9$ string whose plaintext is that reserved word was seen earlier in the run
+    from .jun_checks import ref_encrypt
+    for w in ("ip", "trap", "MyReservedPw", rng.choice(["snmp", "community", "interface"])):
+        hist = ['secret "%s"\n' % ref_encrypt(w, rng.choice("QB7i")), "username bob password %s\n" % w, "snmp-server community %s ro\n" % w]
+        outs, _ = run_lines(cfgp, hist)
+        res.evaluations += 3
+        for ln, o in zip(hist[1:], outs[1:]):
+            if o != ln:
+                fails.append({"kind": "a secret value that is a reserved word was replaced (after a $9$ string with that plaintext)",
+                              "history": hist, "line": ln, "output": o})
     return dis, fails
 
 
@@ -169,12 +179,31 @@ import io, json, sys
 sys.path.insert(0, %r)
 import logging
 logging.lastResort = None
-from netconan.anonymize_files import FileAnonymizer
+from netconan.anonymize_files import FileAnonymizer, anonymize_files
+import os, tempfile, shutil
 req = json.load(sys.stdin)
 out = []
 for r in req:
     for pre in r.get("before", []):
         FileAnonymizer(**pre)
+    if "files" in r:
+        d = tempfile.mkdtemp(prefix="ncverif_")
+        try:
+            ind, outd = os.path.join(d, "in"), os.path.join(d, "out")
+            for name, body in r["files"].items():
+                os.makedirs(os.path.dirname(os.path.join(ind, name)), exist_ok=True)
+                open(os.path.join(ind, name), "w").write(body)
+            kw = dict(r["kwargs"]); pwd = kw.pop("anon_pwd"); ip = kw.pop("anon_ip")
+            anonymize_files(ind, outd, pwd, ip, **kw)
+            res = {}
+            for root, _, fs in os.walk(outd):
+                for f in fs:
+                    p = os.path.join(root, f)
+                    res[os.path.relpath(p, outd)] = open(p).read()
+            out.append(json.dumps(res, sort_keys=True))
+        finally:
+            shutil.rmtree(d, ignore_errors=True)
+        continue
     fa = FileAnonymizer(**r["kwargs"])
     o = io.StringIO()
     fa.anonymize_io(io.StringIO(r["text"]), o)
@@ -211,6 +240,11 @@ def hashseed_scope(res, pid, rng, tier):
             before = [dict(anon_pwd=True, anon_ip=True, salt="other", reserved_words=["sea", words[0].upper(), "interface"],
                            sensitive_words=["router"], preserve_networks=["10.1.0.0/16"])]
         reqs.append({"kwargs": kw, "text": text, "before": before})
+    if pid == "C13":
+        files = {}
+        for k, name in enumerate(["a.cfg", "b.cfg", "sub/c.cfg", "sub/d.cfg", "z/e.cfg", "f.cfg"]):
+            files[name] = "hostname r%d\npassword pw%dxyz\nsnmp-server community comm%dqq ro\nip address 10.%d.2.3 255.255.255.0\n" % (k, k, k, k)
+        reqs.append({"kwargs": dict(anon_pwd=True, anon_ip=True, salt="dirsalt"), "files": files, "text": "", "before": []})
     base = [dict(r, before=[]) for r in reqs]
     ref, err = run_in_process(base, 0)
     if ref is None:
@@ -288,6 +322,9 @@ def as_scope(res, pid, rng, tier):
         for want in (0, hi - lo - 1):
             for s in find_edge_salts(n, lo, hi, want):
                 edge.append((s, [n]))
+    big = [str(n) for n in range(64512, 64512 + 110)]       # many numbers of one small block: replacements collide
+    edge.append((SALTS[res.seed % len(SALTS)], big))
+    edge.append(("s", list(reversed(big))))
     for r in range(rounds + len(edge)):
         if r < rounds:
             nums = AS_LISTS[(r + res.seed) % len(AS_LISTS)]
@@ -299,7 +336,7 @@ def as_scope(res, pid, rng, tier):
         if t.obj is None:
             continue
         lines = [gen_as_line(rng, nums) for _ in range(40 if tier == "thorough" else 20)]
-        lines += ["router bgp %s\n" % n for n in nums] + [" neighbor 1.2.3.4 remote-as %s\n" % n for n in nums]
+        lines += ["router bgp %s\n" % n for n in nums] + [" neighbor 1.2.3.4 remote-as %s\n" % n for n in nums][:40]
         for ln in lines:
             plans.append((cfg, nums, ln, t.line(ln)))
     dis = sess.finish(post=fa.model_out)
@@ -331,6 +368,11 @@ def as_scope(res, pid, rng, tier):
                     ok = False
                     break
                 v = int(orun)
+                lo_, hi_ = block_of(int(run))
+                want = int(hashlib.md5((cfg.salt + run).encode()).hexdigest(), 16) % (hi_ - lo_) + lo_
+                if v != want:
+                    fails.append({"kind": "replacement is not the keyed function of salt and number (listed standalone number left alone or mapped otherwise)",
+                                  "cfg": cfg.describe(), "line": ln, "output": out, "number": run, "replacement": orun, "keyed_value": str(want)})
                 if block_of(v) != block_of(int(run)):
                     fails.append({"kind": "replacement lies in another AS block", "cfg": cfg.describe(), "line": ln, "output": out,
                                   "number": run, "replacement": orun})
@@ -436,6 +478,11 @@ def structure_scope(res, pid, rng, tier):
             toks = [t for t in toks if not any(t[a:b] in (cfg.asn or []) for a, b in digit_runs(t))]
             if toks:
                 plain.append(rng.choice(["", " ", "   ", "\t"]) + rng.choice([" ", "  ", "\t"]).join(toks) + rng.choice(["", " ", "\t "]) + "\n")
+        if cfg.ip:
+            for m in ("255.255.252.000", "000.000.003.255", "0.0.0.255", "255.255.255.0", "255.000.000.000"):
+                plain.append(" ip address-mask %s secondary\n" % m)
+            if cfg.nets:
+                plain.append(" neighbor 010.001.002.003 up\n")
         lines = lines[:-1] + plain + [lines[-1]]
         text = "".join(lines)
         try:
@@ -583,7 +630,12 @@ def total_scope(res, pid, rng, tier):
 # ------------------------------------------------------------------ C15
 
 def compose_scope(res, pid, rng, tier):
-    from netconan.anonymize_files import FileAnonymizer
+    """the multi-feature FileAnonymizer against the public single-feature building blocks applied over the whole
+    text in the fixed order secrets, IPv6, IPv4, sensitive words, AS numbers"""
+    from netconan.default_reserved_words import default_reserved_words
+    from netconan.ip_anonymization import IpAnonymizer, IpV6Anonymizer, anonymize_ip_addr
+    from netconan.sensitive_item_removal import (AsNumberAnonymizer, SensitiveWordAnonymizer, anonymize_as_numbers,
+                                                   generate_default_sensitive_item_regexes, replace_matching_item)
     fails = []
     rounds = 3 if tier == "thorough" else 1
     for _ in range(rounds):
@@ -598,28 +650,34 @@ def compose_scope(res, pid, rng, tier):
                 # a scrubbed line that keeps other sensitive items in front, addresses with dotted tails, and words/AS numbers produced by earlier stages
                 text += "peer 20.1.2.3 2001:db8::1 as 65001 site sea-hq key-string 7 0822455D0A16\n"
                 text += " neighbor ::ffff:1.2.3.4 remote-as 12\n description seattle 65001 11.22.33.44\n"
+                text += " gw 2001:db8::9.8.7.6 via ::11.22.33.44 metric 100\n"
                 try:
                     multi = anon_text(base, text)
                 except Exception as e:  # noqa
                     fails.append({"kind": "multi-feature run raised", "cfg": base.describe(), "exc": repr(e)})
                     continue
-                cur = text
-                kw = dict(preserve_prefixes=base.prefixes, preserve_networks=base.nets, preserve_suffix_v4=base.b4, preserve_suffix_v6=base.b6)
-                stages = []
-                if base.pwd:
-                    stages.append(("secrets", lambda t: _run(FileAnonymizer(True, False, salt=base.salt, reserved_words=base.reserved), t)))
-                if base.ip or undo:
-                    stages.append(("ip", lambda t: _run(FileAnonymizer(False, not undo, salt=base.salt, undo_ip_anon=undo, **kw), t)))
-                if base.words is not None:
-                    stages.append(("words", lambda t: _run(FileAnonymizer(False, False, salt=base.salt, sensitive_words=list(base.words), reserved_words=base.reserved), t)))
-                if base.asn is not None:
-                    stages.append(("as", lambda t: _run(FileAnonymizer(False, False, salt=base.salt, as_numbers=list(base.asn)), t)))
+                lines = io.StringIO(text).readlines()
+                reserved = set(default_reserved_words) | set(base.reserved or [])
                 try:
-                    for name, f in stages:
-                        cur = f(cur)
+                    if base.pwd:
+                        rx, lk = generate_default_sensitive_item_regexes(), {}
+                        lines = [replace_matching_item(rx, l, lk, base.salt, reserved) for l in lines]
+                    if base.ip or undo:
+                        a4 = IpAnonymizer(base.salt, None if base.prefixes is None else list(base.prefixes),
+                                          None if base.nets is None else list(base.nets), preserve_suffix=base.b4)
+                        a6 = IpV6Anonymizer(base.salt, preserve_suffix=base.b6)
+                        lines = [anonymize_ip_addr(a6, l, undo) for l in lines]
+                        lines = [anonymize_ip_addr(a4, l, undo) for l in lines]
+                    if base.words is not None:
+                        w = SensitiveWordAnonymizer(list(base.words), base.salt, reserved)
+                        lines = [w.anonymize(l) for l in lines]
+                    if base.asn is not None:
+                        an = AsNumberAnonymizer(list(base.asn), base.salt)
+                        lines = [anonymize_as_numbers(an, l) for l in lines]
                 except Exception as e:  # noqa
-                    fails.append({"kind": "single-feature run raised", "cfg": base.describe(), "exc": repr(e)})
+                    fails.append({"kind": "single-feature building block raised", "cfg": base.describe(), "exc": repr(e)})
                     continue
+                cur = "".join(lines)
                 res.evaluations += text.count("\n")
                 res.nt(("subset", r, undo))
                 if cur != multi:
